@@ -34,7 +34,7 @@ func gen(t *rapid.T) Case {
 	}
 	n := rapid.IntRange(0, 8).Draw(t, "nops")
 	for i := 0; i < n; i++ {
-		op := Op{Kind: rapid.SampledFrom([]string{"addrel", "addrel", "replacerel", "replacerel", "addcoll"}).Draw(t, "kind"), Target: rapid.IntRange(0, 20).Draw(t, "target")}
+		op := Op{Kind: rapid.SampledFrom([]string{"addrel", "addrel", "replacerel", "replacerel", "addcoll", "newpoint", "replacepath", "replacepath"}).Draw(t, "kind"), Target: rapid.IntRange(0, 20).Draw(t, "target")}
 		nm := rapid.IntRange(0, 4).Draw(t, "nmembers")
 		for j := 0; j < nm; j++ {
 			if rapid.IntRange(0, 5).Draw(t, "self") == 0 {
@@ -168,6 +168,61 @@ func check(c Case) vlib.Outcome {
 		case "addcoll":
 			nextNew++
 			spec = wm.FeatureS{ID: wm.FID{T: 4, NS: "diagonal.works/ns/new", V: uint64(nextNew)}}
+		case "newpoint":
+			nextNew++
+			ll := wm.LL{Lat: 515400000 + int32(nextNew*977), Lng: -1300000 + int32(nextNew*1013)}
+			spec = wm.FeatureS{ID: wm.FID{T: 0, NS: "diagonal.works/ns/new", V: uint64(nextNew)}, Point: &ll}
+			op.Members = nil
+		case "replacepath":
+			// an open path that no area uses gets a new list of points
+			var open []b6.FeatureID
+			under := map[b6.FeatureID]bool{}
+			for _, f := range current {
+				for _, p := range f.Polys {
+					for _, pid := range p.Paths {
+						under[pid.ID()] = true
+					}
+				}
+			}
+			for _, id := range order {
+				f := current[id]
+				if id.Type == b6.FeatureTypePath && !under[id] && len(f.Path) >= 2 && !(f.Path[0].Ref != nil && f.Path[len(f.Path)-1].Ref != nil && *f.Path[0].Ref == *f.Path[len(f.Path)-1].Ref) {
+					open = append(open, id)
+				}
+			}
+			var points []b6.FeatureID
+			for _, id := range order {
+				if id.Type == b6.FeatureTypePoint {
+					points = append(points, id)
+				}
+			}
+			if len(open) == 0 || len(points) < 2 {
+				continue
+			}
+			spec = wm.FeatureS{ID: wm.FromID(open[op.Target%len(open)])}
+			spec.Tags = current[spec.ID.ID()].Tags
+			var last b6.FeatureID
+			for _, m := range op.Members {
+				var pid b6.FeatureID
+				if m >= 1000 {
+					pid = points[len(points)-1-(m-1000)%len(points)]
+				} else if m >= 0 {
+					pid = points[m%len(points)]
+				} else {
+					continue
+				}
+				if pid == last {
+					continue
+				}
+				last = pid
+				fid := wm.FromID(pid)
+				spec.Path = append(spec.Path, wm.PathEl{Ref: &fid})
+			}
+			if len(spec.Path) < 2 || *spec.Path[0].Ref == *spec.Path[len(spec.Path)-1].Ref {
+				continue
+			}
+			op.Members = nil
+			replaced = true
 		case "replacerel":
 			rs := relations()
 			if len(rs) == 0 {
@@ -210,6 +265,8 @@ func check(c Case) vlib.Outcome {
 	staleKnown := vlib.Known("c15-overlay-stale-base-referrers")
 	var w b6.World
 	replacedReferrer := false
+	relaxed := false // known finding: the overlay may report stale referrers that only hold in the base
+	union := map[b6.FeatureID]wm.FeatureS{}
 	switch c.World {
 	case "basic":
 		var all []wm.FeatureS
@@ -244,7 +301,7 @@ func check(c Case) vlib.Outcome {
 			if e.replaced {
 				replacedReferrer = true
 				if staleKnown && baseIDs[e.spec.ID.ID()] {
-					return vlib.Excluded("c15-overlay-stale-base-referrers")
+					relaxed = true
 				}
 			}
 			if err := m.AddFeature(wm.ToIngest(e.spec)); err != nil {
@@ -256,11 +313,50 @@ func check(c Case) vlib.Outcome {
 		return vlib.Outcome{Skip: true}
 	}
 
+	for id, f := range current {
+		u := wm.FeatureS{ID: f.ID}
+		for _, r := range directRefs(f) {
+			u.Members = append(u.Members, wm.MemberS{ID: wm.FromID(r)})
+		}
+		union[id] = u
+	}
+	for _, f := range c.Set.Features {
+		u := union[f.ID.ID()]
+		u.ID = f.ID
+		for _, r := range directRefs(f) {
+			u.Members = append(u.Members, wm.MemberS{ID: wm.FromID(r)})
+		}
+		union[f.ID.ID()] = u
+	}
 	probes := append([]b6.FeatureID{}, order...)
 	probes = append(probes, b6.FeatureID{Type: b6.FeatureTypePoint, Namespace: b6.NamespaceOSMNode, Value: 424242})
 	for _, id := range probes {
 		cmp := func(what string, got []string, types ...b6.FeatureType) error {
 			want := expected(id, current, types...)
+			if relaxed && fmt.Sprint(got) != fmt.Sprint(want) {
+				// every current referrer must be there, once; extras must at least be referrers
+				// through base or current edges
+				allowed := map[string]bool{}
+				for _, a := range expected(id, union, types...) {
+					allowed[a] = true
+				}
+				seen := map[string]bool{}
+				ok := true
+				for _, g := range got {
+					if seen[g] || !allowed[g] {
+						ok = false
+					}
+					seen[g] = true
+				}
+				for _, w := range want {
+					if !seen[w] {
+						ok = false
+					}
+				}
+				if ok {
+					return nil
+				}
+			}
 			if fmt.Sprint(got) != fmt.Sprint(want) {
 				return fmt.Errorf("%s(%v) = [%s], the features currently referencing it (directly or through a chain), each once, are [%s]", what, id, strings.Join(got, " "), strings.Join(want, " "))
 			}
@@ -301,6 +397,9 @@ func check(c Case) vlib.Outcome {
 	}
 	cyc := hasCycle(current)
 	out := vlib.Outcome{NonTrivial: cyc || replacedReferrer, Classes: []string{"world=" + c.World}}
+	if relaxed {
+		out.Classes = append(out.Classes, "relaxed:c15-overlay-stale-base-referrers")
+	}
 	if cyc {
 		out.Classes = append(out.Classes, "cycle")
 	}
